@@ -20,10 +20,18 @@ package car
 //@   call[util.LdWrite#0] assert section [C01,C15]: ref(arg0) == ref(cw.w) && len(arg1) == 2
 
 //@ func (*CarReader).Next
+//@   modifies cr.br, pos(cr.br)
 //@   let c, data, rerr := call[util.ReadNode#0]
 //@   ensures integrity [C02]: err == nil ==> hashok(blockcid(result0), blockdata(result0))
 //@   ensures same_values [C02]: err == nil ==> blockcid(result0) == ref(c) && blockdata(result0) == ref(data)
 //@   ensures eof_clean [C02]: err == io.EOF && old(cr.br) != nil ==> rerr == io.EOF
+//@   ensures progress [C09]: err == nil ==> cr.br == old(cr.br) && pos(cr.br) > old(pos(cr.br)) && pos(cr.br) <= lim(cr.br)
+
+//@ func loadCarFast
+//@   loop[0] decreases lim(cr.br) - pos(cr.br)
+
+//@ func loadCarSlow
+//@   loop[0] decreases lim(cr.br) - pos(cr.br)
 
 //@ func NewCarReaderWithOptions
 //@   call[Pool.Get#0] assume pool_holds_only_bufio_readers: typeis(result, "*bufio.Reader")
